@@ -2,7 +2,10 @@ import sys
 from collections import defaultdict
 import subprocess
 
-import numpy as np  # type: ignore
+try:
+    import numpy as np  # type: ignore
+except ImportError:
+    pass
 
 import cspuz
 from cspuz import Solver, graph
